@@ -18,6 +18,7 @@ from . import extract
 REPO = os.environ.get('VERIF_REPO', '/repo')
 
 PY_TYPES = {int: INT, bool: BOOL, str: STR, float: REAL}
+INT_MAX_STR_DIGITS = getattr(sys.int_info, 'default_max_str_digits', 0) or 10 ** 9
 
 
 class SpecFn:
@@ -461,6 +462,8 @@ class World:
                 if base == 10:
                     lang = z3.Plus(z3.Range('0', '9'))
                     eng.may_raise(st, 'ValueError', z3.Not(z3.InRe(a.term, lang)), 'int(s, 10) of a non-digit string')
+                    # CPython >= 3.11: decimal strings longer than sys.int_info.default_max_str_digits raise ValueError
+                    eng.may_raise(st, 'ValueError', z3.Length(a.term) > INT_MAX_STR_DIGITS, 'int(s, 10) beyond the interpreter digit limit')
                     return V(INT, z3.StrToInt(a.term))
                 if base == 16:
                     lang = z3.Plus(z3.Union(z3.Range('0', '9'), z3.Range('a', 'f'), z3.Range('A', 'F')))
@@ -747,8 +750,11 @@ class World:
             res = VNone()
         post.env['result'] = res
         gs = list(st.guards)
+        region = eng.spec_bool(c.kf_region, pre) if c.kf_region else None
         for e in c.ensures:
             fact = eng.spec_bool(e, post)
+            if region is not None:
+                fact = z3.Or(region, fact)
             st.pc.append(z3.Implies(z3.And(*gs), fact) if gs else fact)
         for exc, cond in c.raises.items():
             r = z3.Bool(fresh_name(f'raises.{exc}'))
